@@ -73,6 +73,7 @@ def check(rep: Report, ctx: Ctx) -> None:
     r127(rep, ctx)
     r128(rep, ctx)
     r129(rep, ctx)
+    r130(rep, ctx)
 
 
 def r18(rep: Report, ctx: Ctx) -> None:
@@ -833,6 +834,7 @@ def r115(rep: Report, ctx: Ctx) -> None:
     c07.rewiring_order(rep, ctx, "R1.15")
     c07.graph_helpers(rep, ctx, "R1.15")
     c07.scc_order(rep, ctx, "R1.15")
+    c07.pruned_set_is_final(rep, ctx, "R1.15")
     from .loopspec import TABLE, check_table
     check_table(rep, ctx, "R1.15", list(TABLE))
 
@@ -1022,3 +1024,19 @@ def r129(rep: Report, ctx: Ctx) -> None:
     rep.rule("R1.29", "dummy breaks become breaks on the breaking event, "
              "which keeps its own flags (= C05 R5.17 / R5.24)", 12)
     c05.push_down(rep, ctx, "R1.29")
+
+
+def r130(rep: Report, ctx: Ctx) -> None:
+    """(= C04 R4.4)  The model that a later run is given must be the model
+    this run learned into: a run that fills one dictionary and saves another
+    makes the next diagram forget every job of this run (seed C01-x)."""
+    from . import c04 as _c04
+    rep.rule("R1.30", "the dictionary saved is the dictionary updated "
+             "(= C04 R4.4)", 7)
+    sub = Report("C04", ctx.index)
+    sub.rule("R4.4", "", 0)
+    _c04.r44(sub, ctx)
+    for o in sub.obligations:
+        o.rule = "R1.30"
+        rep.obligations.append(o)
+    rep.funcs_seen |= sub.funcs_seen
